@@ -5,9 +5,13 @@
 // add-point / add-relation / add-collection, import-geojson, connect,
 // changes-from-file with succeeding and failing feature documents — a path
 // referencing a missing point, an area over an open path, an area over a
-// missing path — and every merge-changes sequence of <= 2 / 3 parts whose k-th
-// part fails), written as shell text and parsed with api.ParseExpression like
-// a client would, is evaluated
+// missing path — every add-tags / remove-tags / import-geojson change whose
+// collection has 2..3 entries drawn in every order, with repetition, from a
+// menu of entries that are each independently valid or failing (so the failing
+// entry comes first, in the middle, last, alone among valid ones or next to
+// other failing ones), and every merge-changes sequence of <= 2 / 3 parts,
+// single- and multi-entry, whose k-th part fails), written as shell text and
+// parsed with api.ParseExpression like a client would, is evaluated
 //
 //	(a) through the gRPC service's Evaluate (grpc.NewB6Service over
 //	    ingest.MutableWorlds, in-process), and
@@ -16,13 +20,26 @@
 // from several pre-states (fresh world; world with overlay features and
 // modified tags; world with a replaced base point) and for the default and a
 // named world root.
-// Oracle (differential, the statement's own): an identical fresh
-// MutableOverlayWorld over the same base is brought to the same pre-state and
-// the identical change, built with the ingest constructors, is applied with
-// Change.Apply. The response must report an error iff that Apply fails; on
-// success the IDs returned must be those Apply reports, contain every target
-// feature whose own tags/existence changed and nothing but targets of the
-// change; and the evaluator's world must dump equal to the reference world.
+// Oracle. "Applying the change failed" is decided WITHOUT Change.Apply (which is
+// part of the code under test): the identical change, built with the ingest
+// constructors, is taken apart into its entries (AddTags / RemoveTags /
+// AddFeatures elements, merged changes flattened in order) and the entries are
+// applied one by one, in order, with the world's own elementary operations
+// (MutableWorld.AddTag / RemoveTag / AddFeature) to an identical fresh
+// MutableOverlayWorld brought to the same pre-state. Applying the change failed
+// iff one of these operations returns an error. For the multi-entry menus each
+// entry also carries a declared validity (the feature ID is present in the
+// pre-state or not; the line string has two points or one), and the entrywise
+// application has to agree with it. The response must report an error iff
+// applying the change failed. Changes read from files have no entry list (the
+// type is private); for them, as before, the differential with Change.Apply on
+// an identical fresh world decides.
+// As before, the identical change is also applied with Change.Apply to a second
+// identical world: on success the IDs returned must be those Apply reports,
+// contain every target feature whose own tags/existence changed and nothing but
+// targets of the change; the evaluator's world must dump equal to that
+// reference world, and, when every entry succeeds, equal to the world after the
+// entrywise application.
 package main
 
 import (
@@ -70,6 +87,19 @@ func idsFor(s wk.IDScheme) ids {
 		x.P[i] = s.P(i)
 	}
 	x.Universe = []b6.FeatureID{x.P[0], x.P[1], x.P[2], x.P[3], x.W0, x.A0, x.R0, x.Q, x.W1, x.A1, x.R1, x.C1, x.Missing, x.MissingW, x.BadPath, x.Geo0, x.Geo1, wk.PathID(geoNS, 1), x.GeoA, x.Access}
+	// import-geojson numbers the features of a collection by position: every
+	// ID a collection of <= 3 entries can create
+	for i := uint64(0); i < 3; i++ {
+		for _, id := range []b6.FeatureID{wk.PointID(geoNS, i), wk.PathID(geoNS, i), wk.AreaID(geoNS, i)} {
+			seen := false
+			for _, u := range x.Universe {
+				seen = seen || u == id
+			}
+			if !seen {
+				x.Universe = append(x.Universe, id)
+			}
+		}
+	}
 	return x
 }
 
@@ -96,6 +126,18 @@ type part struct {
 	ref     func(dir string) ingest.Change
 	targets []b6.FeatureID
 	files   map[string]string // files the expression reads (written under dir)
+	// multi-entry menus only: the declared validity of each entry of the
+	// collection, in order (a pure rule: is the ID present in the pre-state;
+	// has the line string two points)
+	entries []entryDecl
+}
+
+// entryDecl: one entry of a multi-entry collection and whether applying it on
+// its own to the pre-state is declared to succeed.
+type entryDecl struct {
+	name  string
+	op    string // add-tag | remove-tag | add-feature
+	valid func(pre prestate) bool
 }
 
 func lit(id b6.FeatureID) string { return "/" + id.String() }
@@ -243,12 +285,173 @@ func parts(x ids) []part {
 		fmt.Sprintf("id: %s\ntags:\n- key: point\n  value:\n    point: 51.5355,-0.1245\n", lit(x.Q))+"---\n"+pathDoc(x.W1, x.P[0], x.P[1], x.Q, x.P[0])+"---\n"+areaDoc(x.A1, x.W1), x.Q, x.W1, x.A1))
 	add(filePart("file:tag-edits", "tags.yaml", fmt.Sprintf("id: %s\nadd:\n- key: p\n  value: x\nremove:\n- '#amenity'\n", lit(x.P[0])), x.P[0]))
 	add(filePart("file:malformed", "broken.yaml", "id: [unclosed\n", x.P[0]))
+	// --- collections of 2..3 entries, each entry independently valid or failing
+	ps = append(ps, multiEntryParts(x)...)
+	return ps
+}
+
+// ---- multi-entry menus -----------------------------------------------------------
+
+const minEntries, maxEntries = 2, 3
+
+// sequences: every sequence over {0..n-1} (repetition allowed) of length
+// lo..hi, shorter first, each length in lexicographic order.
+func sequences(n, lo, hi int) [][]int {
+	var out [][]int
+	for l := lo; l <= hi; l++ {
+		total := 1
+		for i := 0; i < l; i++ {
+			total *= n
+		}
+		for v := 0; v < total; v++ {
+			s := make([]int, l)
+			for i, r := l-1, v; i >= 0; i-- {
+				s[i] = r % n
+				r /= n
+			}
+			out = append(out, s)
+		}
+	}
+	return out
+}
+
+func always(prestate) bool  { return true }
+func never(prestate) bool   { return false }
+func whenQ(p prestate) bool { return p.hasQ }
+func idsOf(l []tagEntry, s []int) (out []b6.FeatureID) {
+	for _, i := range s {
+		out = append(out, l[i].id)
+	}
+	return out
+}
+
+// tagEntry: one entry of an add-tags (key, val) or remove-tags (key) collection.
+type tagEntry struct {
+	name     string
+	id       b6.FeatureID
+	key, val string
+	present  func(prestate) bool // is id present in the pre-state: the entry is valid iff it is
+}
+
+func addTagsMenu(x ids) []tagEntry {
+	return []tagEntry{
+		{"P0:p", x.P[0], "p", "x", always},
+		{"P1:#s", x.P[1], "#s", "y", always},
+		{"Q:p", x.Q, "p", "q", whenQ}, // present only in the pre-state with the overlay point
+		{"absent-point:p", x.Missing, "p", "m", never},
+		{"absent-path:#s", x.MissingW, "#s", "w", never},
+	}
+}
+
+func removeTagsMenu(x ids) []tagEntry {
+	return []tagEntry{
+		{"P0:#amenity", x.P[0], "#amenity", "", always},
+		{"P1:name", x.P[1], "name", "", always},
+		{"Q:#amenity", x.Q, "#amenity", "", whenQ},
+		{"absent-point:p", x.Missing, "p", "", never},
+		{"absent-path:#highway", x.MissingW, "#highway", "", never},
+	}
+}
+
+// geoEntry: one feature of a GeoJSON feature collection given to import-geojson.
+type geoEntry struct {
+	name, json string
+	valid      bool
+	id         func(i uint64) b6.FeatureID // the ID import-geojson gives it at position i
+}
+
+func geoMenu() []geoEntry {
+	return []geoEntry{
+		{"point", `{"type":"Feature","geometry":{"type":"Point","coordinates":[-0.1245,51.5355]}}`, true, func(i uint64) b6.FeatureID { return wk.PointID(geoNS, i) }},
+		{"line", `{"type":"Feature","geometry":{"type":"LineString","coordinates":[[-0.1245,51.5355],[-0.1244,51.5356]]}}`, true, func(i uint64) b6.FeatureID { return wk.PathID(geoNS, i) }},
+		{"line-of-1-point", `{"type":"Feature","geometry":{"type":"LineString","coordinates":[[-0.1245,51.5355]]}}`, false, func(i uint64) b6.FeatureID { return wk.PathID(geoNS, i) }},
+		{"polygon", `{"type":"Feature","geometry":{"type":"Polygon","coordinates":[[[-0.123,51.537],[-0.1226,51.537],[-0.1226,51.5374],[-0.123,51.537]]]}}`, true, func(i uint64) b6.FeatureID { return wk.AreaID(geoNS, i) }},
+	}
+}
+
+func addTagsPart(menu []tagEntry, s []int) part {
+	var names, pairs []string
+	var ref ingest.AddTags
+	var decl []entryDecl
+	for _, i := range s {
+		e := menu[i]
+		names = append(names, e.name)
+		pairs = append(pairs, fmt.Sprintf("(pair %s (tag %q %q))", lit(e.id), e.key, e.val))
+		ref = append(ref, ingest.AddTag{ID: e.id, Tag: b6.Tag{Key: e.key, Value: str(e.val)}})
+		decl = append(decl, entryDecl{name: e.name, op: "add-tag", valid: e.present})
+	}
+	return part{name: "add-tags[" + strings.Join(names, ", ") + "]", kind: "tag-edit",
+		shell: sh("add-tags (collection " + strings.Join(pairs, " ") + ")"), ref: rf(ref), targets: idsOf(menu, s), entries: decl}
+}
+
+func removeTagsPart(menu []tagEntry, s []int) part {
+	var names, pairs []string
+	var ref ingest.RemoveTags
+	var decl []entryDecl
+	for _, i := range s {
+		e := menu[i]
+		names = append(names, e.name)
+		pairs = append(pairs, fmt.Sprintf("(pair %s %q)", lit(e.id), e.key))
+		ref = append(ref, ingest.RemoveTag{ID: e.id, Key: e.key})
+		decl = append(decl, entryDecl{name: e.name, op: "remove-tag", valid: e.present})
+	}
+	return part{name: "remove-tags[" + strings.Join(names, ", ") + "]", kind: "tag-edit",
+		shell: sh("remove-tags (collection " + strings.Join(pairs, " ") + ")"), ref: rf(ref), targets: idsOf(menu, s), entries: decl}
+}
+
+func geoCollectionPart(menu []geoEntry, s []int) part {
+	var names, docs []string
+	var targets []b6.FeatureID
+	var decl []entryDecl
+	for pos, i := range s {
+		e := menu[i]
+		names = append(names, e.name)
+		docs = append(docs, e.json)
+		targets = append(targets, e.id(uint64(pos)))
+		valid := e.valid
+		decl = append(decl, entryDecl{name: e.name, op: "add-feature", valid: func(prestate) bool { return valid }})
+	}
+	json := `{"type":"FeatureCollection","features":[` + strings.Join(docs, ",") + `]}`
+	p := geoPart("import-geojson["+strings.Join(names, ", ")+"]", json, func() *ingest.AddFeatures {
+		g, err := parseGeoJSON(json)
+		if err != nil {
+			panic(err)
+		}
+		a := &ingest.AddFeatures{}
+		a.FillFromGeoJSON(g, b6.Namespace(geoNS))
+		return a
+	}, targets...)
+	p.entries = decl
+	return p
+}
+
+func multiEntryParts(x ids) []part {
+	var ps []part
+	am, rm, gm := addTagsMenu(x), removeTagsMenu(x), geoMenu()
+	// shorter collections first within each family
+	for l := minEntries; l <= maxEntries; l++ {
+		for _, s := range sequences(len(am), l, l) {
+			ps = append(ps, addTagsPart(am, s))
+		}
+		for _, s := range sequences(len(rm), l, l) {
+			ps = append(ps, removeTagsPart(rm, s))
+		}
+		for _, s := range sequences(len(gm), l, l) {
+			ps = append(ps, geoCollectionPart(gm, s))
+		}
+	}
 	return ps
 }
 
 // mergeMenu: indices into parts() used as parts of merged changes.
 var mergeMenu = []string{"add-tag:searchable:base-point", "add-tag:plain:base-point", "add-tag:overlay-or-absent-point", "add-tag:absent-id", "remove-tag:absent-id",
-	"add-point:new-tagged", "add-point:path-typed-id", "add-relation", "file:path-references-missing-point", "file:path-over-base-points", "import-geojson:linestring-of-one-point"}
+	"add-point:new-tagged", "add-point:path-typed-id", "add-relation", "file:path-references-missing-point", "file:path-over-base-points", "import-geojson:linestring-of-one-point",
+	// multi-entry parts: all entries valid; the failing entry first / last /
+	// in the middle; an entry that is valid only once an earlier part
+	// (add-point:new-tagged) or the pre-state has added its feature
+	"add-tags[P0:p, P1:#s]", "add-tags[absent-point:p, P0:p]", "add-tags[P0:p, absent-point:p]", "add-tags[P0:p, absent-point:p, P1:#s]", "add-tags[Q:p, P0:p]",
+	"remove-tags[absent-point:p, P0:#amenity]", "remove-tags[P0:#amenity, absent-point:p]",
+	"import-geojson[line-of-1-point, point]", "import-geojson[point, line-of-1-point]"}
 
 type change struct {
 	name   string
@@ -313,26 +516,19 @@ func changes(x ids, maxMerge int) []change {
 		}
 		menu = append(menu, p)
 	}
-	var rec func(cur []part)
-	rec = func(cur []part) {
-		if len(cur) > 0 {
-			var names []string
-			for _, p := range cur {
-				names = append(names, p.name)
-			}
-			out = append(out, change{name: "merge[" + strings.Join(names, ", ") + "]", kind: "merged-change", parts: append([]part{}, cur...)})
-			if len(cur) == 2 {
-				out = append(out, change{name: "merge[merge[" + names[0] + "], " + names[1] + "]", kind: "merged-change", parts: append([]part{}, cur...), nested: true})
-			}
+	// shorter merges first; each length in lexicographic order of the menu
+	for _, s := range sequences(len(menu), 1, maxMerge) {
+		var cur []part
+		var names []string
+		for _, i := range s {
+			cur = append(cur, menu[i])
+			names = append(names, menu[i].name)
 		}
-		if len(cur) == maxMerge {
-			return
-		}
-		for _, p := range menu {
-			rec(append(cur, p))
+		out = append(out, change{name: "merge[" + strings.Join(names, ", ") + "]", kind: "merged-change", parts: cur})
+		if len(cur) == 2 {
+			out = append(out, change{name: "merge[merge[" + names[0] + "], " + names[1] + "]", kind: "merged-change", parts: cur, nested: true})
 		}
 	}
-	rec(nil)
 	return out
 }
 
@@ -340,19 +536,20 @@ func changes(x ids, maxMerge int) []change {
 
 type prestate struct {
 	name  string
+	hasQ  bool // the pre-state contains the point x.Q (absent from the base)
 	apply func(x ids, w ingest.MutableWorld) error
 }
 
 var prestates = []prestate{
-	{"fresh", func(ids, ingest.MutableWorld) error { return nil }},
-	{"overlay-point+modified-tags", func(x ids, w ingest.MutableWorld) error {
+	{"fresh", false, func(ids, ingest.MutableWorld) error { return nil }},
+	{"overlay-point+modified-tags", true, func(x ids, w ingest.MutableWorld) error {
 		if _, err := addFeatures(pointFeature(x.Q, s2.LatLngFromDegrees(51.5356, -0.1244), b6.Tag{Key: "#amenity", Value: str("bar")})).Apply(w); err != nil {
 			return err
 		}
 		_, err := ingest.AddTags{{ID: x.P[2], Tag: b6.Tag{Key: "note", Value: str("n")}}, {ID: x.W0, Tag: b6.Tag{Key: "#s", Value: str("w")}}}.Apply(w)
 		return err
 	}},
-	{"base-point-replaced", func(x ids, w ingest.MutableWorld) error {
+	{"base-point-replaced", false, func(x ids, w ingest.MutableWorld) error {
 		_, err := addFeatures(pointFeature(x.P[3], s2.LatLngFromDegrees(51.5352, -0.1251), b6.Tag{Key: "name", Value: str("p3")})).Apply(w)
 		return err
 	}},
@@ -469,6 +666,68 @@ func evalUI(worlds ingest.Worlds, e b6.Expression, root b6.FeatureID) outcome {
 }
 
 func parseGeoJSON(s string) (geojson.GeoJSON, error) { return geojson.Unmarshal([]byte(s)) }
+
+// ---- entrywise application (the independent model of "applying the change") ------
+
+// op: one entry of a change, applied with the world's own elementary operation.
+type op struct {
+	kind   string // add-tag | remove-tag | add-feature
+	id     b6.FeatureID
+	idx, n int // position in, and length of, the collection the entry belongs to
+	do     func(w ingest.MutableWorld) error
+}
+
+func (o op) String() string { return fmt.Sprintf("%s %s (entry %d of %d)", o.kind, o.id, o.idx+1, o.n) }
+
+// position of the entry within its collection, as a small class
+func (o op) pos() string {
+	switch {
+	case o.n == 1:
+		return "only-entry"
+	case o.idx == 0:
+		return "first-entry"
+	case o.idx == o.n-1:
+		return "last-entry"
+	}
+	return "middle-entry"
+}
+
+// elementary takes a change apart into its entries, in application order; ok
+// is false if the change (or a part of a merged change) is of a type whose
+// entries can't be read (changes from files).
+func elementary(c ingest.Change) (ops []op, ok bool) {
+	addFeature := func(fs []ingest.Feature) {
+		for i, f := range fs {
+			f := f
+			ops = append(ops, op{kind: "add-feature", id: f.FeatureID(), idx: i, n: len(fs), do: func(w ingest.MutableWorld) error { return w.AddFeature(f) }})
+		}
+	}
+	switch c := c.(type) {
+	case ingest.AddTags:
+		for i, t := range c {
+			t := t
+			ops = append(ops, op{kind: "add-tag", id: t.ID, idx: i, n: len(c), do: func(w ingest.MutableWorld) error { return w.AddTag(t.ID, t.Tag) }})
+		}
+	case ingest.RemoveTags:
+		for i, t := range c {
+			t := t
+			ops = append(ops, op{kind: "remove-tag", id: t.ID, idx: i, n: len(c), do: func(w ingest.MutableWorld) error { return w.RemoveTag(t.ID, t.Key) }})
+		}
+	case *ingest.AddFeatures:
+		addFeature(*c)
+	case ingest.MergedChange:
+		for _, sub := range c {
+			o, ok := elementary(sub)
+			if !ok {
+				return nil, false
+			}
+			ops = append(ops, o...)
+		}
+	default:
+		return nil, false
+	}
+	return ops, true
+}
 
 // ---- one case --------------------------------------------------------------------
 
@@ -587,6 +846,56 @@ func (e *env) run(cd caseDef) kit.Result {
 	refAfter := e.dump(ref)
 	changed := len(wk.Diff(before, after, true)) > 0
 
+	// entrywise application: the entries of the identical change, one by one,
+	// with the world's elementary operations, on a third identical world
+	ops, modelled := elementary(ch.ref(dir))
+	failAt := -1
+	var failErr error
+	var modelAfter wk.Dump
+	if modelled {
+		model := ingest.NewMutableOverlayWorld(e.base)
+		if err := pre.apply(e.x, model); err != nil {
+			r.Violate("harness:prestate", "%s: %v", pre.name, err)
+			return r
+		}
+		if cls, msg := kit.Catch(func() {
+			for i, o := range ops {
+				if err := o.do(model); err != nil {
+					failAt, failErr = i, err
+					break
+				}
+			}
+		}); cls != "" {
+			r.Violate("entrywise-application:"+cls, "%s\n%s", desc, msg)
+			return r
+		}
+		if failAt < 0 {
+			modelAfter = e.dump(model)
+		}
+		// the declared validity of the entries of a multi-entry collection
+		if len(ch.parts) == 1 && !ch.nested && ch.parts[0].entries != nil {
+			decl := ch.parts[0].entries
+			want, shape := -1, make([]string, len(decl))
+			for i := len(decl) - 1; i >= 0; i-- {
+				shape[i] = "valid"
+				if !decl[i].valid(pre) {
+					want, shape[i] = i, "failing"
+				}
+			}
+			first := "none"
+			if want >= 0 {
+				first = fmt.Sprintf("%d", want+1)
+			}
+			r.Count(fmt.Sprintf("entries:%s:%d-entries:first-failing-entry=%s", decl[0].op, len(decl), first), 1)
+			r.Count("entries:"+decl[0].op+":["+strings.Join(shape, " ")+"]", 1)
+			if len(ops) != len(decl) || want != failAt {
+				r.Violate("model:world-operation-disagrees-with-declared-entry-validity:"+decl[0].op,
+					"%s\ndeclared: %v (first failing entry index %d); applying the %d entries one by one fails at index %d: %v", desc, shape, want, len(ops), failAt, failErr)
+				return r
+			}
+		}
+	}
+
 	res := "applied"
 	if refErr != nil {
 		res = "apply-fails:" + failureCause(refErr)
@@ -596,18 +905,57 @@ func (e *env) run(cd caseDef) kit.Result {
 	}
 	r.Outcome = fmt.Sprintf("%s:%s:%s", evaluator, ch.kind, res)
 	r.Count("change:"+ch.kind, 1)
+	if modelled {
+		r.Count("decided-by:entrywise-application", 1)
+		if failAt >= 0 {
+			r.Count(fmt.Sprintf("entrywise:fails:%s:%s", ops[failAt].kind, ops[failAt].pos()), 1)
+		} else {
+			r.Count("entrywise:every-entry-succeeds", 1)
+		}
+	} else {
+		r.Count("decided-by:direct-apply-only(file-change)", 1)
+	}
 	if cd.change%7 == 0 && cd.pre == 0 && cd.root == 0 {
-		r.Sample = map[string]interface{}{"evaluator": evaluator, "expression": strings.ReplaceAll(text, dir, "<dir>"), "pre_state": pre.name, "reference_apply_error": fmt.Sprint(refErr), "response_error": fmt.Sprint(got.err)}
+		sm := map[string]interface{}{"evaluator": evaluator, "expression": strings.ReplaceAll(text, dir, "<dir>"), "pre_state": pre.name, "reference_apply_error": fmt.Sprint(refErr), "response_error": fmt.Sprint(got.err)}
+		if modelled {
+			sm["entries"] = len(ops)
+			sm["entrywise_first_failure"] = "none"
+			if failAt >= 0 {
+				sm["entrywise_first_failure"] = fmt.Sprintf("%s: %v", ops[failAt], failErr)
+			}
+		}
+		r.Sample = sm
 	}
 
-	// (1) error reported iff Apply fails
+	// (1) error reported iff applying the change failed
+	fails := refErr != nil // file changes: the differential with Change.Apply
+	if modelled {
+		fails = failAt >= 0
+	}
 	switch {
-	case refErr != nil && got.err == nil:
+	case fails && got.err == nil && refErr != nil:
 		r.Violate(fmt.Sprintf("%s:no-error-reported-though-apply-fails:%s", evaluator, ch.kind),
 			"%s\nChange.Apply on an identical fresh world fails: %v\nthe response reports no error (result %s, ids %s); world changed by the evaluation: %v", desc, refErr, got.typ, idSet(got.ids), changed)
-	case refErr == nil && got.err != nil:
+	case fails && got.err == nil:
+		// modelled, and Change.Apply itself reports success
+		r.Violate(fmt.Sprintf("%s:no-error-reported-though-entry-fails:%s:%s:%s", evaluator, ch.kind, ops[failAt].kind, ops[failAt].pos()),
+			"%s\napplying the %d entries of the identical change one by one (MutableWorld.AddTag/RemoveTag/AddFeature) to an identical fresh world fails at %s: %v\nthe response reports no error (result %s, ids %s); Change.Apply of the identical change on an identical fresh world also reports no error (ids %s); world changed by the evaluation: %v",
+			desc, len(ops), ops[failAt], failErr, got.typ, idSet(got.ids), idSet(refIDs), changed)
+	case !fails && got.err != nil && refErr == nil:
 		r.Violate(fmt.Sprintf("%s:error-reported-though-apply-succeeds:%s", evaluator, ch.kind),
 			"%s\nChange.Apply on an identical fresh world succeeds (ids %s)\nthe response reports: %v", desc, idSet(refIDs), got.err)
+	case !fails && got.err != nil:
+		// modelled: every entry succeeds on its own, yet Change.Apply and the
+		// response report an error. If the evaluator's world nevertheless is
+		// the world with every entry applied, the caller is told that a change
+		// failed which was applied in full; otherwise applying did fail, and
+		// the response is right to say so.
+		if len(wk.Diff(modelAfter, after, true)) == 0 && changed {
+			r.Violate(fmt.Sprintf("%s:error-reported-though-every-entry-was-applied:%s", evaluator, ch.kind),
+				"%s\nevery one of the %d entries succeeds when applied one by one, and the evaluator's world equals the world with all of them applied\nthe response reports: %v (Change.Apply on an identical fresh world: %v)", desc, len(ops), got.err, refErr)
+		} else {
+			r.Count("apply-fails-though-every-entry-succeeds-on-its-own", 1)
+		}
 	}
 	// (2) the world: identical to the reference world after the identical Apply
 	if d := wk.Diff(refAfter, after, true); len(d) > 0 {
@@ -620,6 +968,16 @@ func (e *env) run(cd caseDef) kit.Result {
 		}
 		r.Violate(fmt.Sprintf("%s:world-differs-from-direct-apply:on-%s:%s", evaluator, state, ch.kind),
 			"%s\nreference Apply error: %v; response error: %v\n(A = fresh world + Change.Apply, B = evaluator's world)\n%s", desc, refErr, got.err, strings.Join(d, "\n"))
+	}
+	// (2b) a change reported as applied: the world with every entry applied
+	if modelled && failAt < 0 && got.err == nil {
+		if d := wk.Diff(modelAfter, after, true); len(d) > 0 {
+			if len(d) > 8 {
+				d = append(d[:8], fmt.Sprintf("... %d more", len(d)-8))
+			}
+			r.Violate(fmt.Sprintf("%s:world-differs-from-entrywise-application:on-success:%s", evaluator, ch.kind),
+				"%s\nthe response reports no error\n(A = fresh world + the %d entries applied one by one, B = evaluator's world)\n%s", desc, len(ops), strings.Join(d, "\n"))
+		}
 	}
 	// (3) on success: the IDs
 	if refErr == nil && got.err == nil {
@@ -656,10 +1014,15 @@ type caseDef struct{ change, pre, root, eval int }
 func main() {
 	kit.Main(&kit.Check{
 		ID: "C26", Level: "exploration",
-		Rule: "every change of the menu (15 tag edits on present/absent IDs incl. multi-tag collections whose k-th entry is absent; 14 feature additions via add-point/add-relation/add-collection/import-geojson/connect incl. failing ones; 8 change files incl. path over a missing point, area over an open path, area over a missing path, malformed file; every merge-changes sequence of <= M parts over an 11-part menu of succeeding and failing parts, and nested merges) x 3 pre-states x 2 world roots x {gRPC Evaluate, api.Evaluator.EvaluateExpression}. Expressions are shell text parsed with api.ParseExpression. Every case is non-trivial; distinct by (evaluator, change, pre-state, root). " +
-			"Oracle: identical fresh MutableOverlayWorld + identical pre-state + the identical change built with ingest constructors applied with Change.Apply: error reported iff Apply fails; evaluator's world dump == reference world dump; on success returned IDs == IDs Apply reports, are targets of the change, and include every target whose existence/tags/geometry changed.",
+		Rule: "every change of the menu: (a) single changes: 15 tag edits on present/absent IDs; 14 feature additions via add-point/add-relation/add-collection/import-geojson/connect incl. failing ones; 8 change files incl. path over a missing point, area over an open path, area over a missing path, malformed file; " +
+			"(b) multi-entry collections: every add-tags and every remove-tags change whose collection is a sequence (repetition allowed, every order) of 2..3 entries over a 5-entry menu {2 entries on base features (plain and searchable key), 1 entry on a point that only one pre-state contains, 2 entries on absent IDs}, and every import-geojson feature collection that is a sequence of 2..3 features over {point, line string, line string of one point (invalid), polygon} - so every pattern valid/failing x valid/failing (x valid/failing), failure first / middle / last / several; " +
+			"(c) every merge-changes sequence of <= M parts over a 20-part menu of succeeding and failing parts (11 single-entry parts incl. 2 change files; 9 multi-entry parts: add-tags [valid valid], [failing valid], [valid failing], [valid failing valid], [valid-once-the-point-exists valid], remove-tags [failing valid], [valid failing], import-geojson [invalid valid], [valid invalid]), and the nested form merge[merge[a], b] of every 2-part sequence; " +
+			"each x 3 pre-states x 2 world roots x {gRPC Evaluate, api.Evaluator.EvaluateExpression}; ordered single changes, 2-entry collections, 3-entry collections, merges by length. Expressions are shell text parsed with api.ParseExpression. Every case is non-trivial; distinct by (evaluator, change, pre-state, root). " +
+			"Oracle: 'applying the change failed' is decided without Change.Apply: the identical change built with ingest constructors is taken apart into its entries (merged changes flattened in order) and these are applied one by one with MutableWorld.AddTag/RemoveTag/AddFeature to an identical fresh MutableOverlayWorld in the identical pre-state; it failed iff an operation returns an error (for (b) this must also agree with the declared validity of each entry: ID present in the pre-state / line string has 2 points). The response must report an error iff applying failed (changes from files have no readable entries: Change.Apply on an identical fresh world decides, as it does for the remaining demands). " +
+			"On success returned IDs == IDs Change.Apply reports, are targets of the change, and include every target whose existence/tags/geometry changed; evaluator's world dump == dump of the identical world after Change.Apply of the identical change, and, when no error is reported and every entry succeeds, == dump of the world with the entries applied one by one.",
 		Assumptions: []string{
-			"'applying the change failed' is read as: Change.Apply of the identical change on an identical fresh world returns an error",
+			"'applying the change failed' is read as: applying the entries of the change in order with the world's elementary operations (AddTag, RemoveTag, AddFeature), one of them returns an error; for changes read from files (no readable entries): Change.Apply of the identical change on an identical fresh world returns an error",
+			"a response error for a change all of whose entries succeed one by one is a violation only if Change.Apply on an identical world succeeds or the evaluator's world shows every entry applied; otherwise (Apply itself fails and the world is not the fully applied one) applying did fail and the error is due",
 			"after a failing change the evaluator's world is compared with the reference world after the same failing Apply (AddTags/AddFeatures are not atomic; atomicity is C13's subject), not with the world before",
 			"returned IDs are compared as sets",
 			"callers of Evaluator.EvaluateExpression hold the read lock, as ui.OpenSourceUI.ServeStack does",
@@ -673,6 +1036,16 @@ func main() {
 			sch := wk.Schemes[1]
 			x := idsFor(sch)
 			chs := changes(x, maxMerge)
+			nSingle, nMulti := 0, 0
+			for _, c := range chs {
+				if c.kind != "merged-change" {
+					if c.parts[0].entries != nil {
+						nMulti++
+					} else {
+						nSingle++
+					}
+				}
+			}
 			var cases []caseDef
 			// simplest first: plain changes before merges (changes() order), fresh pre-state first
 			for c := range chs {
@@ -686,18 +1059,19 @@ func main() {
 			}
 			var e *env
 			return kit.FuncSpace{N: int64(len(cases)), F: func(i int64) kit.Result {
-				if e == nil {
-					base, err := wk.BasicStrict(baseSpec(x), 1)
-					if err != nil {
-						var r kit.Result
-						r.Violate("harness:base-build", "%v", err)
-						return r
+					if e == nil {
+						base, err := wk.BasicStrict(baseSpec(x), 1)
+						if err != nil {
+							var r kit.Result
+							r.Violate("harness:base-build", "%v", err)
+							return r
+						}
+						atoms := []wk.RQ{{Op: "all"}, {Op: "keyed", Key: "#s"}, {Op: "keyed", Key: "#amenity"}, {Op: "keyed", Key: "#highway"}, {Op: "keyed", Key: "#route"}, {Op: "keyed", Key: "#landuse"}, {Op: "keyed", Key: "#kind"}, {Op: "tagged", Key: "#s", Val: "x"}, {Op: "tagged", Key: "#amenity", Val: "cafe"}}
+						e = &env{x: x, base: base, changes: chs, queries: wk.NamedQueries(atoms)}
 					}
-					atoms := []wk.RQ{{Op: "all"}, {Op: "keyed", Key: "#s"}, {Op: "keyed", Key: "#amenity"}, {Op: "keyed", Key: "#highway"}, {Op: "keyed", Key: "#route"}, {Op: "keyed", Key: "#landuse"}, {Op: "keyed", Key: "#kind"}, {Op: "tagged", Key: "#s", Val: "x"}, {Op: "tagged", Key: "#amenity", Val: "cafe"}}
-					e = &env{x: x, base: base, changes: chs, queries: wk.NamedQueries(atoms)}
-				}
-				return e.run(cases[i])
-			}}, fmt.Sprintf("%d changes (merges of <= %d parts) x %d pre-states x %d roots x 2 evaluators, ID scheme %s", len(chs), maxMerge, len(prestates), len(roots), sch.Name)
+					return e.run(cases[i])
+				}}, fmt.Sprintf("%d changes (%d single; %d collections of %d..%d entries: add-tags and remove-tags over 5-entry menus, import-geojson over a 4-feature menu, every sequence; %d merges of <= %d parts over a %d-part menu incl. nested 2-part merges) x %d pre-states x %d roots x 2 evaluators, ID scheme %s",
+					len(chs), nSingle, nMulti, minEntries, maxEntries, len(chs)-nSingle-nMulti, maxMerge, len(mergeMenu), len(prestates), len(roots), sch.Name)
 		},
 	})
 }
